@@ -54,6 +54,13 @@ def tasks(tier, seed):
     for L in (4, 5, 6) if q else (4, 5, 6, 7):
         for i in range(L - 1):
             ts.append(dict(name=f'gauge_L{L}_i{i}_symbolic', kind='gauge', L=L, i=i, u='symbolic' if L <= 6 else 'symbolic_real', dense=True))
+    # L = 7 reaches gauge blocks that no smaller L executes (pair nodes right of the centre with k >= i + 2): concrete complex unitary in the
+    # quick tier (cheap: entries stay linear in the coefficients), arbitrary complex unitary in the thorough tier
+    for i in ((3, 4, 5) if q else range(6)):
+        ts.append(dict(name=f'gauge_L7_i{i}_cplx_general', kind='gauge', L=7, i=i, u='cplx_general', dense=True))
+    if not q:
+        for i in (3, 4, 5):
+            ts.append(dict(name=f'gauge_L7_i{i}_symbolic_cplx', kind='gauge', L=7, i=i, u='symbolic', dense=True))
     for i in (0, 1, 2):
         for uname in (('swap', 'cplx_mix') if q else tuple(UNITARIES)):
             ts.append(dict(name=f'gauge_L4_i{i}_{uname}', kind='gauge', L=4, i=i, u=uname, dense=True))
